@@ -129,6 +129,15 @@ theorem stepSync_ren (net : Net) (s : Sim) (mi : Nat) (path : String) (ttl : Nat
     · simp only [h0, if_false, bump_ren, log_ren, renSim_serial, renSim_now]
       rw [← push_ren]
       rfl
+  | schedr kind =>
+    simp only [stepSync, pop_ren_fst, pop_ren_snd, log_ren]
+    by_cases h0 : ttl = 0
+    · simp [h0]
+    · simp only [h0, if_false, bump_ren, log_ren, renSim_serial, renSim_now]
+      rw [← push_ren]
+      rfl
+  | spin l t e => rfl
+  | spun l t e => rfl
   | spawn t => rfl
   | sleep d => rfl
   | sel ds => rfl
@@ -168,6 +177,9 @@ theorem runHandler_ren (net : Net) (mi : Nat) (path : String) (ttl : Nat) (steps
     | restart d => simp only [runHandler]; rw [stepSync_ren]; exact ih _
     | sig n => simp only [runHandler]; rw [stepSync_ren]; exact ih _
     | wait n => simp only [runHandler]; rw [stepSync_ren]; exact ih _
+    | schedr k => simp only [runHandler]; rw [stepSync_ren]; exact ih _
+    | spin l t e => simp only [runHandler]; rw [stepSync_ren]; exact ih _
+    | spun l t e => simp only [runHandler]; rw [stepSync_ren]; exact ih _
 
 /-! ### `select!` -/
 
@@ -278,6 +290,17 @@ theorem enqueueWaiter_ren (m : ModRt) (ti : Nat) (r : List Step) (name : String)
   simp only [renMod_sems]
   cases (m.updTask ti (fun t => { t with prog := r, wait := .waiting name false })).sems.find? (fun x => x.1 = name) <;> rfl
 
+theorem yieldTask_ren (m : ModRt) (ti : Nat) (r : List Step) (l t e : Nat) :
+    yieldTask (renMod a m) ti r l t e = renMod a (yieldTask m ti r l t e) := by
+  unfold yieldTask
+  rw [updTask_ren a m ti _ (fun x => { x with prog := .spun l t e :: r, wait := .run }) (fun x => by simp [renTask, renWait])]
+  simp [renMod, ModRt.updTask]
+
+theorem spinDraw_ren (s : Sim) (path tag : String) (l t e : Nat) :
+    spinDraw (renSim a s) path tag l t e = renSim a (spinDraw s path tag l t e) := by
+  unfold spinDraw
+  by_cases h : (t - l) % e = 0 <;> simp [h]
+
 theorem runTask_ren (h : a.Inj) (net : Net) (mi : Nat) (path tag : String) (ti ttl : Nat) (prog : List Step) :
     ∀ s : Sim, runTask net a mi path tag ti ttl (renSim a s) prog =
       renSim a (runTask net Ambient.canon mi path tag ti ttl s prog) := by
@@ -314,6 +337,17 @@ theorem runTask_ren (h : a.Inj) (net : Net) (mi : Nat) (path tag : String) (ti t
     | shut => simp only [runTask]; rw [stepSync_ren]; exact ih _
     | restart d => simp only [runTask]; rw [stepSync_ren]; exact ih _
     | sig n => simp only [runTask]; rw [stepSync_ren]; exact ih _
+    | schedr k => simp only [runTask]; rw [stepSync_ren]; exact ih _
+    | spin l t e =>
+      simp only [runTask]
+      cases l with
+      | zero => exact ih _
+      | succ k => exact updMod_ren a s mi _ _ (fun m => yieldTask_ren a m ti r k t e)
+    | spun l t e =>
+      simp only [runTask]
+      cases l with
+      | zero => simp only [spinDraw_ren]; exact ih _
+      | succ k => simp only [spinDraw_ren]; exact updMod_ren a _ mi _ _ (fun m => yieldTask_ren a m ti r k t e)
     | wait name =>
       simp only [runTask, renSim_mods, List.getElem?_map]
       cases s.mods[mi]? with
